@@ -13,8 +13,8 @@ import (
 	"sync"
 	"time"
 
-	gerrors "github.com/acquirecloud/golibs/errors"
 	"github.com/acquirecloud/golibs/container/iterable"
+	gerrors "github.com/acquirecloud/golibs/errors"
 	"github.com/acquirecloud/golibs/kvs"
 )
 
@@ -84,6 +84,8 @@ type core struct {
 	createRelease  chan struct{}
 	vers2          map[string]bool // versions written by calls of phase 2 (not the tenure under study)
 	hardOdd        []string        // things no delay can cause
+	waited         bool            // scenario "waited": the acquisition of the holder is waiting for another Locker
+	shortLease     string          // scenario "waited": the created record was short of call time + lease
 
 	// scenario (viii): BEFORE the tenure under study the same Locker object held an earlier tenure ("prehistory",
 	// passed through unrecorded) that was unlocked while its preParkK-th renewal call was in flight (applied by the
@@ -95,7 +97,7 @@ type core struct {
 	preRelease chan struct{}
 	vers0      map[string]bool
 	expTab     map[int64]int64 // wall-clock ns of every ExpiresAt written -> its instant on the scenario's clock
-	staleCalls int // calls presenting a version of the earlier tenure while the tenure under study runs (all must fail)
+	staleCalls int             // calls presenting a version of the earlier tenure while the tenure under study runs (all must fail)
 }
 
 func newCore(inner kvs.Storage, ttl time.Duration) *core {
@@ -206,10 +208,36 @@ func (v holderView) Create(ctx context.Context, r kvs.Record) (string, error) {
 		return "", errInjected
 	}
 	exp := c.rel(r.ExpiresAt)
-	c.add(event{t: exp - int64(c.ttl), kind: kAcquire, res: "RNone", rk: "none"})
-	t0 := c.ts()
-	ver, err := c.inner.Create(ctx, r)
-	t1 := c.ts()
+	var ver string
+	var err error
+	var t0, t1 int64
+	if c.waited {
+		// the acquisition waits for another Locker (scenario "waited"): attempts that find the lock taken leave no
+		// event; the one that creates the record is the acquisition of the tenure under study.  Its record must carry
+		// call time + lease: an expiration that is more than a quarter of the lease short of that was not computed
+		// for this attempt (judged together with the sleep canary, see runWithPolicy)
+		t0 = c.ts()
+		ver, err = c.inner.Create(ctx, r)
+		t1 = c.ts()
+		if err != nil {
+			if !errors.Is(err, gerrors.ErrExist) {
+				c.oddities = append(c.oddities, "holder Create: unexpected error "+err.Error())
+			}
+			c.mu.Unlock()
+			return ver, err
+		}
+		if short := t0 + int64(c.ttl) - exp; short > int64(c.ttl)/4 && c.shortLease == "" {
+			c.shortLease = fmt.Sprintf("the record created at %.1f ms (after the call had waited for another Locker) expires at %.1f ms: %.1f ms short of call time + lease (%v)",
+				float64(t0)/1e6, float64(exp)/1e6, float64(short)/1e6, c.ttl)
+		}
+		c.waited = false
+		c.add(event{t: exp - int64(c.ttl), kind: kAcquire, res: "RNone", rk: "none"})
+	} else {
+		c.add(event{t: exp - int64(c.ttl), kind: kAcquire, res: "RNone", rk: "none"})
+		t0 = c.ts()
+		ver, err = c.inner.Create(ctx, r)
+		t1 = c.ts()
+	}
 	switch {
 	case err == nil:
 		id := c.newVer(ver)
